@@ -485,6 +485,44 @@ def freelist_is_set(ctx, rule='C05.freelist-set'):
     return res
 
 
+KEEP_FIRST = {'entry', 'or_insert', 'or_insert_with', 'or_insert_with_key', 'or_default', 'try_insert', 'get_or_insert_with', 'get_or_insert'}
+
+
+def parent_links_refreshed(ctx, rule='C05.parent-links-refreshed'):
+    """InnerBucket.page_parents caches "which page is the parent of this page" as seen by the last descent; merges during the commit move children to another
+    parent and the following descent must overwrite the entry -- a keep-the-first-value update attaches the re-spilled child to a node that no longer exists,
+    so a page stays reachable and free at once"""
+    from effects import fn_effect_sites
+    res = []
+    F = ctx.facts
+    n = 0
+    for fn in F.fns:
+        if fn.kind == 'Closure':
+            continue
+        hows = {}
+        for (bb, adt, field, how) in fn_effect_sites(F, fn):
+            if adt and last_seg(adt) == 'InnerBucket' and field == 'page_parents':
+                hows.setdefault(how, bb)
+        if not hows:
+            continue
+        writes = {h: b for h, b in hows.items() if h in KEEP_FIRST or h in ('insert', 'extend', 'store')}
+        if not writes:
+            continue
+        n += 1
+        keep = sorted(h for h in writes if h in KEEP_FIRST)
+        if keep:
+            bb = writes[keep[0]]
+            res.append(bad(rule, '%s | parent link kept from the first descent (%s)' % (fn.qual, ','.join(keep)),
+                           '%s records the parent of a page with `%s` at %s, which keeps an older entry instead of overwriting it: after a merge moved the page under another '
+                           'parent the stale link makes the commit write the child below a deleted node' % (fn.qual, ', '.join(keep), fn.loc(bb)), where=fn.loc(bb)))
+        else:
+            res.append(ok(rule, '%s overwrites the parent link on every descent (%s)' % (fn.qual, ','.join(sorted(writes))), sites=1))
+    f = floor(rule, 'functions that record parent links', n, 1)
+    if f:
+        res.append(f)
+    return res
+
+
 def run(ctx, tier):
     results = []
     results += freelist_order(ctx)
@@ -496,6 +534,8 @@ def run(ctx, tier):
     results += run_length(ctx)
     results += free_once(ctx)
     results += freelist_is_set(ctx)
+    results += parent_links_refreshed(ctx)
+    results += c02.reload_rule(ctx, rule='C05.reload')
     results += c02.cow_free_set(ctx, rule='C05.cow.free-set')
     import c10, c06
     results += c10.delete_walk_guard(ctx, rule='C05.delete-walk-guard')
